@@ -27,7 +27,7 @@ void h_sig_sign(void) {
     __CPROVER_assert(g_gen_n == 1 && SC_EQ(g_gen_a0, non), "C01 sig_sign: R = nonce * G is the only generator multiplication");
     __CPROVER_assert(g_sg_n == 1 && FE_EQ(g_sg_a0.x, g_gen_r0.x) && FE_EQ(g_sg_a0.y, g_gen_r0.y) && FE_EQ(g_sg_a0.z, g_gen_r0.z) && g_sg_a0.infinity == g_gen_r0.infinity,
                      "C01 sig_sign: the affine conversion is applied to R");
-    X = fmodp(&g_sg_r0.x); Y = fmodp(&g_sg_r0.y);
+    X = fmodp1(&g_sg_r0.x); Y = fmodp1(&g_sg_r0.y);   /* ge_set_gej output: magnitude 1 */
     overflow = X >= n; odd = (int)(Y & 1);
     __CPROVER_assert(rv == (overflow ? X - n : X), "C01 sig_sign: r = x(R) mod n");
     /* s wiring: mul#0 = r*d ; t = mul#0 + m mod n (real add) ; inv = nonce^-1 ; mul#1 = inv * t ; s = +-mul#1 */
